@@ -15,4 +15,6 @@ ASSUMED = [
     "byte-identity of the fixed-width/float encodings with the reference rests on A-STRUCT (struct.pack little-endian layout); "
     "spec functions == reference implementation is validated only by the bounded differential (thorough tier), not proved",
 ]
-BOUNDED = []
+from pyvc.check import external_bounded
+BOUNDED = [external_bounded("deep-schema:C16", "standin.deep", ["C16", "--n", "150"], ["C16", "--n", "800"],
+                            "delimited messages and long runs of varints read through BytesIO / BufferedReader with small buffers / a real file")]
